@@ -360,7 +360,8 @@ class SR:
     def __format__(self, spec):
         if self.op == 'c':
             return format(float(self.extra), spec)
-        return show(self)
+        # opaque rendering token (A9: str.format renders the correctly rounded decimal): identifies value and format
+        return '\u27e6%d|%s\u27e7' % (self.id, spec)
 
 
 class SB:
